@@ -7,14 +7,14 @@ What is mirrored (cfdm 1.11.2.0, numpy-backed `Data`):
 * every object of a class that mixes in `cfdm.mixin.Files` carries an
   `'original_filenames'` component (`own` below); `_original_filenames()` aggregates it
   over the object tree: `FieldDomain` over the metadata constructs, `PropertiesDataBounds`
-  over bounds and interior ring, `Data` over its count/index/list variables.
-  The code as it stands does **not** descend from a construct into its data (`…Old`);
-  the proposed patch makes `PropertiesData` include its data and `Data` include the files
-  of its source array (`…New`).
+  over bounds and interior ring, `PropertiesData` over its data, `Data` over its source array's
+  files and its count/index/list variables (`…New`).  Before repair 7723aa6 no class descended
+  from a construct into its data (`…Old`).
 * `get_filenames()` as coded (`needCode`): the file array of the field's own data and of the
   data of each metadata construct — not bounds, not interior rings, not count/index/list
   variables.  The *specification* of "files still needed" (`need`) is every file array that
-  is a leaf of the tree.
+  is a leaf of the tree.  (The deeper tree — tie point index / interpolation parameter
+  variables, dependent tie points, node coordinates — is the subject of `Model/FilesTree.lean`.)
 * the deriving operations (copy, `Field(source=)`, subspace, squeeze, transpose,
   insert_dimension, get_domain, convert, del/set construct, set_data / set_bounds with
   another construct's data, to_memory) with the propagation the code performs: the
@@ -23,14 +23,16 @@ What is mirrored (cfdm 1.11.2.0, numpy-backed `Data`):
 * `NetCDFWrite.write` / `_file_io_iteration` / `file_open`: argument validation, (append:
   the file is read first), existence + `overwrite` check, the guard, `os.remove`,
   `netCDF4.Dataset(...)`, emission of each field (from a copy), close, then the external
-  file.  The file system has regular files and one level of symbolic links.
+  file.  The file system has regular files and one level of symbolic links (chains of links,
+  hard links, spellings and the expansion of `~` / `$VAR`: `Model/FilesPath.lean`).
 
-`Ver.old` is the code as it stands, `Ver.new` the code with fixes/C10-*.patch:
-  (i)   `_original_filenames()` descends into data and includes the source array's files;
-  (ii)  the guard compares `os.path.realpath` on both sides instead of `abspath` names;
-  (iii) the `external=` file (always overwritten by a nested write) is checked against the
+`Ver.new` is the code at /repo HEAD, `Ver.old` the code before the repairs 7723aa6 and 22fef00
+(recorded as `fixed:` in known_findings.json), which
+  (i)   made `_original_filenames()` descend into data and include the source array's files;
+  (ii)  made the guard compare `os.path.realpath` on both sides instead of `abspath` names;
+  (iii) check the `external=` file (always overwritten by a nested write) against the
         fields being written before anything is opened;
-  (iv)  the guard also applies in mode 'a' / 'r+'.
+  (iv)  apply the guard in mode 'a' / 'r+' as well.
 -/
 namespace Cfdm.Files
 
@@ -109,7 +111,7 @@ def Cons.needCode (c : Cons) : List Name := dataFiles c.data
 def FieldM.needCode (f : FieldM) : List Name :=
   (if f.isDomain then [] else dataFiles f.data) ++ f.cons.flatMap Cons.needCode
 
-/-! ## `_original_filenames()` — the code as it stands -/
+/-! ## `_original_filenames()` — the code before repair 7723aa6 -/
 
 def Anc.origOld (a : Anc) : List Name := a.own
 def DataM.origOld (d : DataM) : List Name := d.own ++ d.ancils.flatMap Anc.origOld
@@ -119,7 +121,7 @@ def holderOwn : Option Holder → List Name
 def Cons.origOld (c : Cons) : List Name := c.own ++ holderOwn c.bounds ++ holderOwn c.ring
 def FieldM.origOld (f : FieldM) : List Name := f.own ++ f.cons.flatMap Cons.origOld
 
-/-! ## `_original_filenames()` — with the proposed patch -/
+/-! ## `_original_filenames()` — the code at /repo HEAD -/
 
 def Anc.origNew (a : Anc) : List Name := a.own ++ (a.dOwn ++ a.dFiles)
 def DataM.origNew (d : DataM) : List Name := d.own ++ d.files ++ d.ancils.flatMap Anc.origNew
@@ -480,7 +482,7 @@ def emit (fs0 : FS) (fault : Fault) (skip : Bool) (t : Name) (tok : Nat → Nat)
     if fault = Fault.emit i ∨ (skip = false ∧ readable fs0 fs f = false) then (fs, false)
     else emit fs0 fault skip t tok (fs.append t (tok i)) (i + 1) rest
 
-/-- The guard of `file_open` for the file about to be deleted (mode w) or, patched, appended to. -/
+/-- The guard of `file_open` for the file about to be deleted (mode w) or appended to. -/
 def tgtGuard (v : Ver) (fs : FS) (fields : List FieldM) (target : Name) : Bool :=
   !fields.isEmpty && guardHits v fs fields target
 
@@ -516,13 +518,13 @@ def extIs (fs : FS) (ext : Option Name) (t : Name) : Bool :=
   | some e => fs.real e == t
   | none => false
 
-/-- Patched code only: the external file (always overwritten) is checked like the target. -/
+/-- Since repair 22fef00: the external file (always overwritten) is checked like the target. -/
 def extGuard (v : Ver) (fs : FS) (fields : List FieldM) (ext : Option Name) : Bool :=
   match v, ext with
   | .new, some e => guardHits .new fs fields e
   | _, _ => false
 
-/-- Patched code only: the guard also covers mode 'a'. -/
+/-- Since repair 22fef00: the guard also covers mode 'a'. -/
 def appGuard (v : Ver) (fs : FS) (fields : List FieldM) (target : Name) : Bool :=
   match v with
   | .new => tgtGuard .new fs fields target
